@@ -176,7 +176,7 @@ func (w *Worker) Violate(sig, detail string) (known bool) {
 	if w.viol == nil {
 		w.viol = &Violation{Property: w.Property, Signature: sig, Detail: detail, Step: len(w.steps)}
 		w.Note("VIOLATION %s: %s", sig, detail)
-		if strings.HasPrefix(sig, "race|") && w.anyRace == nil {
+		if (strings.HasPrefix(sig, "race|") || strings.HasPrefix(sig, "nondeterministic-output")) && w.anyRace == nil {
 			v := *w.viol
 			v.Steps = append([]string(nil), w.steps...)
 			v.Config = w.config
@@ -265,7 +265,7 @@ func (w *Worker) Finish() {
 			// a race report is sound evidence even if the detector does not repeat it on the final replay
 			res.Status = "violation"
 			v := *w.anyRace
-			v.Detail = "[race report did not recur on the final minimised replay; this is the first execution that showed it] " + v.Detail
+			v.Detail = "[the report did not recur on the final minimised replay (race reports and nondeterministic output are not perfectly repeatable); this is the first execution that showed it] " + v.Detail
 			res.Violation = &v
 			res.FailFile = newestFailFile()
 		} else {
